@@ -317,7 +317,7 @@ class Validator:
                     raise Bad("PT_TLS-memsz", f"PT_TLS memsz={tls.memsz:#x}, TLS sections span {hi - lo:#x}")
                 if tls.align < al:
                     raise Bad("PT_TLS-align", f"PT_TLS p_align={tls.align:#x} < TLS section alignment {al:#x}")
-                if tls.align > 1 and (not pow2(tls.align) or (tls.offset - tls.vaddr) % min(tls.align, PAGE)):
+                if tls.align > 1 and (not pow2(tls.align) or (tls.filesz and (tls.offset - tls.vaddr) % min(tls.align, PAGE))):
                     raise Bad("PT_TLS-congruence", f"PT_TLS {tls}: offset/vaddr not congruent modulo alignment")
                 data = [s for s in tsecs if s.type != E.SHT_NOBITS]
                 fhi = max((s.addr + s.size for s in data), default=lo)
